@@ -16,6 +16,24 @@ func genC06(rt *rapid.T) *C06Spec {
 		vc.fmtCompat, vc.noPanic = true, true
 	}
 	s.X = vc.genVal(rt, 0, false)
+	if !vc.fmtCompat && rapid.IntRange(0, 7).Draw(rt, "spfmt") == 3 {
+		// a formatter that discovers the SafePrinter behind its fmt.State and
+		// makes a nested Printf whose format and operands do not match (the
+		// reports %!d(MISSING), %!v(BADINDEX), %!(EXTRA ...) are part of the
+		// rendering of x)
+		args := vc.aligned().genArgs(rt, 1, false, 2)
+		f := genSimpleFormat(rt, "spf", len(args), false)
+		switch rapid.IntRange(0, 3).Draw(rt, "spmm") {
+		case 0:
+			f = append(f, "%d"...)
+		case 1:
+			f = append(f, "%[7]v"...)
+		case 2:
+			args = append(args, vc.leafS(rt, "str", false, false))
+		}
+		nested := &Op{K: "Printf", S: f, Args: args}
+		s.X = &Val{K: "fmter", Ops: []*Op{{K: "Write", S: B("w")}, {K: "SP", Ops: []*Op{{K: "SafeString", S: B("pre")}, nested, {K: "UnsafeString", S: B("post")}}}}}
+	}
 	fc := &fmtConfig{noStar: true, noZeroMinus: true, noHugeNumbers: true}
 	s.Dir = fc.genDirective(rt)
 	if string(s.Dir.Verb) == "%" {
